@@ -90,6 +90,8 @@ func exec(op string) (res string) {
 		c := parseRkn(w)
 		c.pl = pl
 		return c.run()
+	case "rkc", "rkcx":
+		return parseRkc(w).run()
 	case "ringsort":
 		return execRingsort(w)
 	case "lessr":
@@ -621,6 +623,16 @@ func main() {
 			op += " " + genPl(r, -1)
 			out.Case(op, exec(op), "rkn@/"+name, true)
 		}
+	}
+	// the routing-key info cache over histories of one session (rkc.go)
+	for i := 0; i < 1500*mult; i++ {
+		c, safe, cls := genRkc(r, g)
+		name := "rkc"
+		if !safe {
+			name = "rkcx"
+		}
+		op := c.op(name)
+		out.Case(op, exec(op), cls, true)
 	}
 	out.Close(nil)
 }
